@@ -292,6 +292,23 @@ def rule_rows(repo, rule):
         elif stores:
             rule.violation(init.loc(shared[0]), init.fq, norm(shared[0]), "Array(x) can share x's list: the copy made before a multi-"
                            "dimensional write (and any user copy) writes through to the array it was made from", "rows/ctor-shares")
+    # multi-dimensional read: a[i, j, ...] is a[i][j, ...] - the first component indexes this array, the rest index the element.
+    # Decided only on returns of the shape self[item<c1>][item<c2>] (locals substituted): the components in any other
+    # arrangement read another element (a transposed read is invisible on square inputs).  Other shapes are not judged here.
+    from ..flatten import resolve_locals as _rl15g
+    gitem = gi.params[1]
+    gtup = [n for n in ast.walk(gi.node) if isinstance(n, ast.If) and norm(n.test) == "isinstance(%s, tuple)" % gitem]
+    for t in gtup:
+        for r_ in [x for x in t.body if isinstance(x, ast.Return) and x.value is not None]:
+            e = _rl15g(gi.node, r_.value, keep={gitem})
+            if isinstance(e, ast.Subscript) and isinstance(e.value, ast.Subscript) and norm(e.value.value) == gi.params[0] \
+                    and norm(e.value.slice).startswith(gitem + "[") and norm(e.slice).startswith(gitem + "["):
+                first, rest = norm(e.value.slice), norm(e.slice)
+                if first == "%s[0]" % gitem and rest == "%s[1:]" % gitem:
+                    rule.ok(gi.loc(r_), gi.fq, norm(e)[:90], "a[i, j, ...] reads a[i][j, ...]")
+                else:
+                    rule.violation(gi.loc(r_), gi.fq, norm(e)[:120], "multi-dimensional read does not index this array by the first component "
+                                   "and the element by the remaining ones (a[i, j] would read another element)", "rows/read")
     # multi-dimensional write
     item, val = si.params[1], si.params[2]
     tup = [n for n in ast.walk(si.node) if isinstance(n, ast.If) and norm(n.test) == "isinstance(%s, tuple)" % item and n is not si.node.body[0]]
